@@ -123,6 +123,12 @@ def literal_for(state: dict[str, Any], mid: str, mod: dict[str, Any], t: Any) ->
 
 def render_slot(state: dict[str, Any], mid: str, mod: dict[str, Any], name: str, s: dict[str, Any]) -> list[str]:
     out: list[str] = []
+    if "reexport" in s:
+        i = s["reexport"]
+        if 0 <= i < len(mod["imports"]):
+            target = mod["imports"][i]["mod"]
+            out.append(f"from {target} import {name}" + (f" as {name}" if s.get("explicit") else ""))
+        return out
     if name.startswith("f"):
         params = []
         for i, p in enumerate(s.get("params", [])):
@@ -214,6 +220,11 @@ def render_use(state: dict[str, Any], mid: str, mod: dict[str, Any], k: int, u: 
     elif kind == "inst":
         lines.append(f"u{k} = {ref}({args}){ign}")
         lines.append(f"reveal_type(u{k})")
+    elif kind == "deep":
+        # reference through a chain of module attributes: m1.m2.m3.C0 (indirect module dependencies)
+        full = imp["mod"] + "." + ".".join(u.get("path", [])) + "." + u["name"] if u.get("path") else ref
+        lines.append(f"def _d{k}(p: {full}) -> None:{ign}")
+        lines.append(f"    reveal_type(p)")
     elif kind == "chain":
         # value obtained through a call, then attribute: indirect dependency on the class's module
         lines.append(f"u{k} = {ref}({args}){ign}")
@@ -342,6 +353,9 @@ def gen_type(rng: random.Random, mod: dict[str, Any], allow_cls: bool = True, de
 
 
 def gen_slot(rng: random.Random, mod: dict[str, Any], name: str) -> dict[str, Any]:
+    if mod["imports"] and rng.random() < 0.15:
+        # the name is not defined here but re-exported from an imported module
+        return {"reexport": rng.randrange(len(mod["imports"])), "explicit": rng.random() < 0.5}
     if name.startswith("f"):
         n = rng.choice([0, 1, 1, 2, 2, 3])
         params = [gen_type(rng, mod) for _ in range(n)]
@@ -401,6 +415,26 @@ def gen_use(rng: random.Random, mod: dict[str, Any]) -> dict[str, Any]:
     return u
 
 
+def gen_deep_use(rng: random.Random, state: dict[str, Any], mid: str) -> dict[str, Any] | None:
+    """A use like `p: m1.m2.C0` that is valid only while m1 keeps `import m2` (and so on)."""
+    mod = state["mods"][mid]
+    cands = [i for i, imp in enumerate(mod["imports"]) if imp["style"] == "import" and imp["mod"] in state["mods"]]
+    if not cands:
+        return None
+    i = rng.choice(cands)
+    cur = mod["imports"][i]["mod"]
+    path = []
+    for _ in range(rng.randint(1, 3)):
+        nxt = [imp["mod"] for imp in state["mods"][cur]["imports"] if imp["style"] == "import" and imp["mod"] in state["mods"] and "." not in imp["mod"]]
+        if not nxt:
+            break
+        cur = rng.choice(nxt)
+        path.append(cur)
+    if not path:
+        return None
+    return {"imp": i, "kind": "deep", "name": rng.choice(CLASSES), "path": path, "type": "int", "attr": "attr"}
+
+
 def gen_imports(rng: random.Random, mid: str, mods: list[str], n: int, allow_missing: bool = True) -> list[dict[str, Any]]:
     others = [m for m in mods if m != mid]
     imps = []
@@ -458,6 +492,11 @@ def gen_project(rng: random.Random, acyclic: bool = False, max_mods: int = 8) ->
     state: dict[str, Any] = {"mods": {}, "roots": ["m0"], "argv_mode": "files"}
     for mid in mods:
         state["mods"][mid] = gen_module(rng, mid, mods, order if acyclic or rng.random() < 0.5 else None)
+    for mid in mods:
+        if rng.random() < 0.5:
+            du = gen_deep_use(rng, state, mid)
+            if du is not None:
+                state["mods"][mid]["uses"].append(du)
     # "ns" itself is not a module with a file
     extra_roots = [m for m in mods if m != "m0" and "." not in m and rng.random() < 0.25]
     state["roots"] += extra_roots
@@ -481,6 +520,10 @@ def gen_edit(rng: random.Random, state: dict[str, Any], acyclic: bool = False) -
         return {"e": "slot", "mod": mid, "name": name, "spec": spec}
     if r < 0.60 and mod["imports"]:
         uses = [gen_use(rng, mod) for _ in range(rng.randint(0, 5))]
+        if rng.random() < 0.4:
+            du = gen_deep_use(rng, state, mid)
+            if du is not None:
+                uses.append(du)
         return {"e": "uses", "mod": mid, "uses": uses}
     if r < 0.72:
         if acyclic:
